@@ -328,13 +328,21 @@ void recipeStaged(RunState& rs) {
     if (sc.variant == "staged") {
         HistOp one; one.op = "execute"; one.flags = unionFlags;
         doExecute(rs, *full, one, sc.isTaskBased(), "full");
+    } else if (sc.variant == "topstaged") {
+        // reference: the same history with the consecutive top-tree calls merged into one call
+        std::vector<HistOp> merged;
+        for (const HistOp& op : sc.history) {
+            if (op.op == "top" && !merged.empty() && merged.back().op == "top") merged.back().flags |= op.flags;
+            else merged.push_back(op);
+        }
+        runHistory(rs, *full, merged, sc.isTaskBased(), "full");
     }
     std::unique_ptr<IWorld> staged = makeWorld(sc);
     staged->buildTree();
     ctx.view = &staged->view();
     staged->makeAlgo();
     runHistory(rs, *staged, sc.history, sc.isTaskBased(), "run");
-    if (sc.variant == "staged") {
+    if (sc.variant == "staged" || sc.variant == "topstaged") {
         setStage("compare");
         compareViews(ctx, staged->view(), full->view(), (1u << BUF_MULT) | (1u << BUF_LOCAL) | (1u << BUF_RHS) | (1u << BUF_CELL_SYMB) | (1u << BUF_PART_SYMB),
                      "staged-vs-full", "staged execute() calls vs one full run of the same executor");
